@@ -40,11 +40,12 @@ ASSUMPTIONS = [
     "every level of the built tree no ignore_errors, no argument with allow_hyphen_values, no subcommand named/prefixed "
     "`--`; no global arguments anywhere (globals_free of the built tree); parse_top with a bin name already set "
     "(otherwise argv[0] is stored in the definition before it is built; do_parse form has no such hypothesis)",
-    "the verbatim-delivery conclusion is for the class sink_from: after the `--` every token goes to ONE multi-valued "
-    "positional without terminator -- for every value of the positional counter (a `last` positional or "
-    "allow_missing_positional) or because the counter cannot move (`sticky`: no last/allow_missing_positional/"
-    "low-index-multiple rule and every positional multiple and unterminated); commands that first fill single-valued "
-    "positionals after the `--`, Append positionals with num_args(1) and value terminators are covered by "
+    "the verbatim-delivery conclusion is for two classes of levels: sink_from (after the `--` every token goes to ONE "
+    "multi-valued positional without terminator -- for every value of the positional counter (a `last` positional or "
+    "allow_missing_positional) or because the counter cannot move (`sticky`)) and chainc (single-valued positionals "
+    "followed by a multi-valued one, e.g. `<src> <dst> [rest]...`: no last/allow_missing_positional/terminators/"
+    "low-index-multiple rule, indices 1..n all declared, positionals not overriding each other); Append positionals "
+    "with num_args(1), value terminators and levels whose positionals cannot absorb the whole tail are covered by "
     "C05_trailing_loop_is_absorb/C05_trailing_outcome, C05_escape_line_sim and the differential run only",
     "prefix preservation (C05_*_prefix_same): at the level that consumed the `--` for command-line entries outside "
     "`touched` (= the positional, its groups, its overrides relation); at the levels above it for all entries; "
@@ -65,7 +66,10 @@ LEVEL_TEXT = ("Machine-checked theorems (Coq 8.16, closed under the global conte
               "without dispatching anything, no subcommand is recorded there, and the entry of the absorbing positional "
               "(class sink_from: `last`/allow_missing_positional multi-valued positional, or a command whose positional "
               "counter cannot move) has the tail byte-for-byte and in order as the suffix of its last value group (split "
-              "only at a declared delimiter, not at all with dont_delimit_trailing_values); an external subcommand selected "
+              "only at a declared delimiter, not at all with dont_delimit_trailing_values); for levels of class chainc "
+              "(single-valued positionals followed by a multi-valued one) the tail tokens are distributed in order, one to "
+              "each single-valued positional from the counter on and the rest to the multi-valued one, and the tail cannot "
+              "overflow into an external subcommand; an external subcommand selected "
               "by the prefix receives `--` and the tail verbatim.  Two successful parses of the same prefix with different "
               "tails (the empty one included) agree on every command-line entry of that level outside the positional's "
               "overrides/groups relation and on all entries of the levels above it.  A help/version outcome of the token loop on `pre -- tail` is the outcome for "
@@ -77,8 +81,8 @@ LEVEL_TEXT = ("Machine-checked theorems (Coq 8.16, closed under the global conte
               "subcommand/help/version, same outcome and same command-line entries as with an innocuous tail) runs on the "
               "implementation's output.")
 LEVEL_NOTE = ("Trusted: Coq kernel, extraction, OCaml driver, Rust harness, generators. Differential/oracle only: commands "
-              "outside esc_class / sink_from (hyphen-accepting arguments, several single-valued positionals filled after the "
-              "`--`, terminators, globals, ignore_errors), help/version outcomes of the phases after the loop."
+              "outside esc_class / sink_from / chainc (hyphen-accepting arguments, Append num_args(1) positionals, "
+              "terminators, globals, ignore_errors), help/version outcomes of the phases after the loop."
               "")
 
 SEP = " ;; "
